@@ -14,10 +14,10 @@ class _AnswerRace:
     runs the real Node._record_answer under every interleaving of its source lines among the answering threads with <= max_pre
     pre-emptions and demands what every sequential order gives (the window is larger than `n`): every repeat is answered
     5012 by the node and none reaches the application again."""
-    def __init__(self, n):
+    def __init__(self, n, origin="cli0.example.net"):
         import nodesim as NS
         from vsim import Sim
-        self.NS, self.n = NS, n
+        self.NS, self.n, self.origin = NS, n, origin
         self.sim = sim = Sim(seed=1, t0=NS.T0)
         sim.script_random([77, 12345])
         self.node = node = sim.node_mod.Node("srv.example.net", "example.net", ip_addresses=["10.0.0.1"], tcp_port=3868)
@@ -34,7 +34,7 @@ class _AnswerRace:
         r.feed(NS.build_message(dict(kind="cer", host="cli0.example.net", hbh=1, e2e=1)))
         sim.run()
         for k in range(n):
-            r.feed(NS.build_message(dict(kind="req", hbh=0x1001 + k, e2e=0x2001 + k, host="cli0.example.net")))
+            r.feed(NS.build_message(dict(kind="req", hbh=0x1001 + k, e2e=0x2001 + k, host=origin)))
         sim.run()
         r.take_sent()
 
@@ -82,7 +82,7 @@ class _AnswerRace:
         sim.run()
         self.first = self._wire()
         for k in range(self.n):
-            f = bytearray(NS.build_message(dict(kind="req", hbh=0x3001 + k, e2e=0x2001 + k, host="cli0.example.net")))
+            f = bytearray(NS.build_message(dict(kind="req", hbh=0x3001 + k, e2e=0x2001 + k, host=self.origin)))
             f[4] |= 0x10        # the T flag, set on the wire
             self.remote.feed(bytes(f))
         sim.run()
@@ -120,13 +120,15 @@ def _submitter(name):
 def concurrent_answers(run):
     import racelib
     total = 0
-    plans = [(2, 2, 1500), (3, 2, 2500), (4, 1, 1500)] if run.tier == "thorough" else [(2, 1, 200), (3, 1, 250)]
-    for n, pre, cap in plans:
+    near, far = "cli0.example.net", "far.example.net"      # the peer itself / an origin behind it (first answers to a new origin)
+    plans = [(2, 2, 1500, near), (3, 2, 2500, near), (4, 1, 1500, near), (2, 2, 1500, far), (3, 2, 2500, far)] if run.tier == "thorough" \
+        else [(2, 1, 200, near), (3, 1, 250, near), (2, 2, 450, far), (3, 1, 250, far)]
+    for n, pre, cap, origin in plans:
         if run.violations:
             break
-        total += racelib.explore(run, lambda: _AnswerRace(n), _judge_answers(n),
+        total += racelib.explore(run, lambda: _AnswerRace(n, origin), _judge_answers(n),
                                  "answers to one origin host sent by several threads at the same time", pre, cap,
-                                 extra_case={"answers": n}, only=_submitter)
+                                 extra_case={"answers": n, "origin": origin}, only=_submitter)
     run.extra["concurrent_answer_schedules"] = total
 
 
@@ -145,8 +147,8 @@ def replay(r):
     c = r.get("case", {})
     if str(c.get("scenario", "")).startswith("answers to one origin host"):
         import racelib
-        n = int(c["answers"])
-        o = racelib.replay_schedule(lambda: _AnswerRace(n), c["schedule"], only=_submitter)
+        n, origin = int(c["answers"]), c.get("origin", "cli0.example.net")
+        o = racelib.replay_schedule(lambda: _AnswerRace(n, origin), c["schedule"], only=_submitter)
         print("replay:", {k: o[k] for k in ("outcomes", "delivered_again", "repeats_answered", "deaths")})
         return _judge_answers(n)(o) is None
     return nodecheck.replay_generic(r)
